@@ -32,6 +32,13 @@ def describe(tier):
 
 
 def cases(tier, seed):
+    if tier == "thorough":
+        from . import c01
+        for (v, code, etm, hs) in c01.classes():
+            if not hs:
+                continue
+            for sh in TLS_SHAPES:
+                yield {"kind": "tls", "cls": -1, "vce": [v, code, etm], "shape": sh, "seed": seed}
     for ci in range(len(TLS_CLASSES)):
         for sh in TLS_SHAPES:
             yield {"kind": "tls", "cls": ci, "shape": sh, "seed": seed}
@@ -42,7 +49,7 @@ def cases(tier, seed):
 def build(case):
     seed = case["seed"]
     if case["kind"] == "tls":
-        v, code, etm = TLS_CLASSES[case["cls"]]
+        v, code, etm = case["vce"] if case.get("vce") else TLS_CLASSES[case["cls"]]
         sh = case["shape"]
         scn = {"version": v, "suite": code, "etm": etm, "history": [("c", 150), ("s", 700), ("s", 40), ("c", 9), ("s", 2)]}
         if sh == "coalesced":
